@@ -683,17 +683,17 @@ Theorem next_idx_without_slot_raises e from nx r n :
 Proof.
   intros Hr Hm. unfold on_message. cbn [nd start_S]. rewrite Hr, (N.eqb_refl (term n)).
   cbn [N.eqb Pos.eqb LEADER andb].
-  assert (E : aget from (match_idx (nd (if r then upd (fun n0 => n0 <| next_idx := aset from nx (next_idx n0) |>)
-                                                   (start_S e n) else start_S e n))) = None)
-    by (destruct r; exact Hm).
-  rewrite E. destruct r; reflexivity.
+  set (s1 := if r then _ else start_S e n).
+  assert (E : aget from (match_idx (nd s1)) = None) by (subst s1; destruct r; exact Hm).
+  clearbody s1. rewrite E. reflexivity.
 Qed.
 
 (* a failure reply from such an id creates next_idx / last_resp slots for it *)
 Theorem next_idx_failure_from_stranger e from nx n :
   role n = LEADER ->
   let n' := nd (on_message e from (NextIdx (term n) nx true false) n) in
-  aget from (next_idx n') = Some nx /\ aget from (last_resp n') = Some (t0 e) /\
+  aget from (next_idx n') = Some (match aget from (next_idx n) with Some cur => N.min nx cur | None => nx end) /\
+  aget from (last_resp n') = Some (t0 e) /\
   others n' = others n.
 Proof.
   intros Hr. cbv zeta. unfold on_message. cbn [nd start_S]. rewrite Hr, (N.eqb_refl (term n)).
